@@ -202,7 +202,7 @@ func checkC06(c *Ctx) {
 	c.Assume("h = largest cell edge of the learned lattice; 'resolvable' surface point = the field is <= -d at p - d*n and >= d at p + d*n for d = one cell diagonal")
 	n := c.Pick(140, 3000)
 	maxCells := c.Pick(40, 150)
-	type volRec struct{ h, err float64 }
+	gate := newGate(5_000_000) // sum of cells^3 in flight (each recorded sample costs ~100 bytes)
 	parallelFor(n, func(i int) {
 		r := c.Rng("case", i)
 		rk := mcRenderers[(i/7)%2]
@@ -216,6 +216,7 @@ func checkC06(c *Ctx) {
 				cells = pickOne(r, []int{127, 128, 129})
 			}
 		}
+		defer gate.enter(int64(cells) * int64(cells) * int64(cells))()
 		sh := c06MakeShape(r, i)
 		cs := c06Case{i, rk.name, cells, sh.desc}
 		rd := rk.mk(cells)
